@@ -91,6 +91,30 @@ func (c *Cell) String() string {
 	return "<NULL>"
 }
 
+// identity returns a text that is the same for two cells exactly when they
+// hold the same value of the same kind. Unlike String it does not depend on the
+// zone a time anchor was created with: anchors are rendered as UTC instants.
+func (c *Cell) identity() string {
+	switch {
+	case c == nil:
+		return "_"
+	case c.S != nil:
+		return "S:" + *c.S
+	case c.N != nil:
+		return "N:" + c.N.String()
+	case c.P != nil:
+		if ta, err := c.P.TimeAnchor(); err == nil {
+			return fmt.Sprintf("P:%q@[%s]", c.P.ID(), ta.UTC().Format(time.RFC3339Nano))
+		}
+		return fmt.Sprintf("P:%q@[]", c.P.ID())
+	case c.L != nil:
+		return "L:" + c.L.String()
+	case c.T != nil:
+		return "T:" + c.T.UTC().Format(time.RFC3339Nano)
+	}
+	return "_"
+}
+
 // Row represents a collection of cells.
 type Row map[string]*Cell
 
@@ -729,6 +753,9 @@ type countDistinctAcc struct {
 // Accumulate takes the given value and accumulates it to the current state.
 func (c *countDistinctAcc) Accumulate(v interface{}) (interface{}, error) {
 	vs := fmt.Sprintf("%v", v)
+	if cell, ok := v.(*Cell); ok {
+		vs = cell.identity()
+	}
 	c.state[vs]++
 	return int64(len(c.state)), nil
 }
@@ -930,16 +957,32 @@ func (t *Table) Reduce(cfg SortConfig, aaps []AliasAccPair) error {
 	if len(t.Data) == 0 {
 		return nil
 	}
-	t.unsafeSort(cfg)
-	last, lastIdx, current, newData := "", 0, "", []Row{}
 	id := func(r Row) string {
 		res := bytes.NewBufferString("")
 		for _, c := range cfg {
-			res.WriteString(r[c.Binding].String())
+			res.WriteString(r[c.Binding].identity())
 			res.WriteString(";")
 		}
 		return res.String()
 	}
+	t.unsafeSort(cfg)
+	// The groups are the maximal runs of rows with the same key, but rowLess is
+	// not a total order when a column mixes kinds of values (it calls them
+	// equal), so after sorting rows with the same key need not be adjacent:
+	// gather them, keeping the order in which the keys first appear.
+	byKey, keys := make(map[string][]Row), []string{}
+	for _, r := range t.Data {
+		k := id(r)
+		if _, ok := byKey[k]; !ok {
+			keys = append(keys, k)
+		}
+		byKey[k] = append(byKey[k], r)
+	}
+	t.Data = make([]Row, 0, len(t.Data))
+	for _, k := range keys {
+		t.Data = append(t.Data, byKey[k]...)
+	}
+	last, lastIdx, current, newData := "", 0, "", []Row{}
 	for idx, r := range t.Data {
 		current = id(r)
 		// First time.
